@@ -248,6 +248,113 @@ def restore_boot_state(skip=()):
     return n
 
 
+_WATCHED_TYPES = {}
+_MUTATORS = {
+    dict: ('__setitem__', '__delitem__', 'update', 'pop', 'popitem', 'clear', 'setdefault'),
+    list: ('__setitem__', '__delitem__', 'append', 'extend', 'insert', 'pop', 'remove', 'clear', 'sort', 'reverse', '__iadd__'),
+    set: ('add', 'discard', 'remove', 'pop', 'clear', 'update', '__ior__', '__iand__', '__isub__', 'difference_update',
+          'intersection_update'),
+}
+
+
+class quiet:
+    """Harness-side mutations of process tables (eviction, restart restore) are not steering points."""
+
+    def __enter__(self):
+        STATE['quiet'] = STATE.get('quiet', 0) + 1
+
+    def __exit__(self, *a):
+        STATE['quiet'] -= 1
+
+
+def _table_written(table):
+    if STATE.get('quiet'):
+        return
+    STATE['table_writes'] = STATE.get('table_writes', 0) + 1
+    sched = STATE['sched']
+    if sched is not None and sched.current is not None:
+        client = sched.clients_by_id.get(sched.current)
+        if client is not None and client.in_op:
+            f = sys._getframe(2)
+            site = '%s:%d (process table)' % (f.f_code.co_filename.rsplit('/', 1)[-1], f.f_lineno)
+            STATE['sites'][site] = STATE['sites'].get(site, 0) + 1
+            sched.barrier_hit(client, f, 'barrier')
+
+
+def _watched_type(base):
+    """A subclass of dict / list / set / OrderedDict / ... whose mutators report to the scheduler AFTER the write."""
+    t = _WATCHED_TYPES.get(base)
+    if t is not None:
+        return t
+    root = dict if issubclass(base, dict) else list if issubclass(base, list) else set if issubclass(base, set) else None
+    if root is None:
+        return None
+    ns = {'__slots__': (), '_verif_watched': True}
+    for name in _MUTATORS[root]:
+        orig = getattr(base, name, None)
+        if orig is None:
+            continue
+
+        def make(orig):
+            def method(self, *a, **k):
+                r = orig(self, *a, **k)
+                _table_written(self)
+                return r
+            return method
+        ns[name] = make(orig)
+    try:
+        t = type('Watched' + base.__name__, (base,), ns)
+    except TypeError:
+        ns.pop('__slots__')
+        t = type('Watched' + base.__name__, (base,), ns)
+    _WATCHED_TYPES[base] = t
+    return t
+
+
+def instrument_process_tables():
+    """Replace every class-level and module-level container of the library (not its generated resources) by an
+    instrumented subclass with the same contents: an in-place write to a process-wide table (same key, new value —
+    invisible to size probes and to the attribute barrier) becomes a steering point right after the write.
+    Every alias of the object (other modules' `from x import TABLE`, other classes) is rebound to the same wrapper."""
+    if STATE.get('tables_instrumented') is not None:
+        return STATE['tables_instrumented']
+    owners = []      # (setter, getter-dict, key)
+    for cls in _lib_classes():
+        for k, a in list(vars(cls).items()):
+            if type(a) in _CONTAINER_TYPES and not (k.startswith('__') and k.endswith('__')):
+                owners.append((cls, k, a))
+    for mname, m in list(sys.modules.items()):
+        if mname.split('.')[0] not in MODULE_ROOTS or m is None or '.resources' in mname:
+            continue
+        for k, a in list(vars(m).items()):
+            if type(a) in _CONTAINER_TYPES and not k.startswith('__'):
+                owners.append((m, k, a))
+    repl = {}
+    n = 0
+    for owner, k, a in owners:
+        w = repl.get(id(a))
+        if w is None:
+            t = _watched_type(type(a))
+            if t is None:
+                continue
+            try:
+                if isinstance(a, _collections.defaultdict):
+                    w = t(a.default_factory, a)
+                else:
+                    w = t(a)
+            except Exception:   # noqa
+                continue
+            repl[id(a)] = w
+        try:
+            setattr(owner, k, w)
+            n += 1
+        except (AttributeError, TypeError):
+            pass
+    STATE['tables_instrumented'] = n
+    STATE['_table_originals'] = [a for (_, _, a) in owners]      # keep the originals alive (ids stay unique)
+    return n
+
+
 def rebase():
     """Recompute the watch list; the current container sizes become the reference for change detection."""
     if not CLASS_WATCH:
